@@ -127,8 +127,13 @@ pub fn check_state(
             return Err(viol(job, slices, "bit_above_vocab", "mask-bit-above-vocab", hist, json!({"bit": t}), ""));
         }
     }
-    // EOS <=> accepting
+    // EOS <=> accepting -- except for a grammar that names the end-of-sequence token itself (`"a" <eos> "b"`):
+    // there the token is also a terminal of the grammar, in the mask at the positions that name it
+    let names_eos = matches!(&job.item.g, GrammarSpec::Lark(t) if t.contains("<eos>"));
     for &e in trie.eos_tokens() {
+        if names_eos && mask.is_allowed(e) && !accepting {
+            continue;
+        }
         if e < nv && mask.is_allowed(e) != accepting {
             return Err(viol(job, slices, "eos_vs_accepting", "eos-accepting-mismatch", hist,
                 json!({"eos": e, "in_mask": mask.is_allowed(e), "accepting": accepting}), ""));
